@@ -441,3 +441,86 @@ func c13PoolPass(r *harness.Run, depth int, tier string) {
 	r.Count("pool_history_operations", int64(ops))
 	r.Extra[fmt.Sprintf("pool_history_depth_alphabet%d", len(c13PoolAlphabet(tier == "t")))] = depth
 }
+
+// c13SharedObjects: no object one state can reach from Lua is reachable from another state. The
+// values a program can get hold of without creating them (library tables and functions, the
+// string metatable, the standard files, and the sentinel require parks in package.loaded while a
+// module loads) are captured by a host function in two states and must be pairwise different
+// objects; a metatable attached to a captured object in one state must not be visible in the other.
+func c13SharedObjects(r *harness.Run) {
+	const src = `
+local seen = {}
+local function walk(name, v, depth)
+  local t = type(v)
+  if t ~= "table" and t ~= "function" and t ~= "userdata" and t ~= "thread" then return end
+  if seen[v] then return end
+  seen[v] = true
+  capture(name, v)
+  if t == "table" and depth < 3 then
+    for k, x in pairs(v) do if type(k) == "string" then walk(name .. "." .. k, x, depth + 1) end end
+  end
+  local ok, mt = pcall(debug.getmetatable, v)
+  if not ok then query_failed = name .. ": " .. tostring(mt) elseif mt then walk(name .. "<mt>", mt, depth + 1) end
+end
+walk("_G", _G, 0)
+walk("string-metatable", debug.getmetatable(""), 0)
+package.preload.verifmod = function(name)
+  local s = package.loaded[name]
+  walk("require-sentinel", s, 0)
+  if type(s) == "userdata" then
+    local ok, mt = pcall(debug.getmetatable, s)
+    seen_tag = ok and (mt or {}).tag or nil
+    pcall(debug.setmetatable, s, {tag = "from-" .. state_name})
+  end
+  return true
+end
+require("verifmod")
+`
+	type obj struct {
+		name string
+		v    lua.LValue
+	}
+	run := func(stateName string) ([]obj, string) {
+		L := lua.NewState()
+		// (not closed before the comparison: the objects must stay alive so that addresses cannot be reused)
+		var got []obj
+		L.SetGlobal("state_name", lua.LString(stateName))
+		L.SetGlobal("capture", L.NewFunction(func(L *lua.LState) int {
+			got = append(got, obj{L.CheckString(1), L.Get(2)})
+			return 0
+		}))
+		if err := L.DoString(src); err != nil {
+			// (the script only reads and compares; a failure is a defect of what it touched)
+			r.Violation("shared-object/script-failed", "walking the objects reachable from Lua failed in state "+stateName+": "+firstLine(err.Error()), nil)
+		}
+		tag := L.GetGlobal("seen_tag").String()
+		if q := L.GetGlobal("query_failed"); q != lua.LNil {
+			r.Violation("shared-object/metatable-query-fails", "debug.getmetatable fails on an object the program can reach: "+q.String(), nil)
+		}
+		return got, tag
+	}
+	a, tagA := run("A")
+	b, tagB := run("B")
+	inA := map[lua.LValue]string{}
+	for _, o := range a {
+		inA[o.v] = o.name
+	}
+	n := 0
+	for _, o := range b {
+		n++
+		if o.name == "_G.capture" {
+			continue
+		}
+		if an, shared := inA[o.v]; shared {
+			r.Violation("shared-object/"+o.name, fmt.Sprintf("the %s %s of state B is the same Go object as %s of state A: what one state does to it (a metatable, a field, an environment) shows in the other", o.v.Type(), o.name, an), map[string]interface{}{"name": o.name})
+		}
+	}
+	if tagA != "nil" || tagB != "nil" {
+		r.Violation("shared-object/metatable-leak", fmt.Sprintf("a metatable attached by another state was visible on the object require parks in package.loaded (A saw %s, B saw %s)", tagA, tagB), nil)
+	}
+	r.EvalN(int64(n))
+	r.Eval("shared-objects", true, func() interface{} {
+		return map[string]interface{}{"scenario": "shared-objects", "objects_compared": n}
+	})
+	r.Count("reachable_objects_compared_between_states", int64(n))
+}
